@@ -3,11 +3,104 @@ from props.ring_common import *
 from props.ring_gens import gen_multi
 
 PROPS = "theories/Props/C14.v"
-RULE = ('as C04 with emphasis on the multi producer with 2-3 writer threads, ring sizes 2..128 (bitmap below / at / above one word), small batches. Monitors: every write gets consecutive sequences of the requested length, the successful CASes on the high watermark tile the sequence space in claim order, the cursor never decreases and never covers an unwritten sequence, after all claimants published the cursor equals the highest claimed sequence')
+RULE = ('as C04 with emphasis on the multi producer with 2-3 writer threads, ring sizes 2..128 (bitmap below / at / above one word), small batches. Monitors: every write gets consecutive sequences of the requested length, the successful CASes on the high watermark tile the sequence space in claim order, the cursor never decreases and never covers an unwritten sequence, after all claimants published the cursor equals the highest claimed sequence. '
+        'SECOND PHASE (sequencer API driven directly from one thread, harness/ds family seqapi): random histories of next(count) / publish / consumer progress on SingleProducerSequencer (publishes in claim order, SEVERAL claims outstanding) and MultiProducerSequencer (publishes in ANY order), sizes 2..128, 0..3 gating cursors, only claims that do not block; implementation output compared with the extracted sequential model (Disruptor/SeqApi.v) and judged by the extracted property checker [check]')
+KF_D8 = "C14-D8-multi-publish-stranding"
+
+
+def gen_seqapi(run):
+    rng = run.rng
+    cases = []
+    dist = {"seqapi_kinds": {"single": 0, "multi": 0}, "seqapi_ops": {"next": 0, "publish": 0, "gate": 0}, "seqapi_out_of_order_publishes": 0,
+            "seqapi_max_outstanding": 0, "seqapi_slow_path_claims": 0}
+    n = 3000 if run.thorough else 400
+    for _ in range(n):
+        kind = rng.randrange(2)
+        size = rng.choice([2, 4, 8, 8, 16, 64, 128]) if kind else rng.choice([1, 2, 4, 8, 8, 16, 64, 128])
+        ng = rng.choice([0, 1, 1, 2, 3])
+        gating = [0] * ng
+        out = []                       # outstanding claims (lo, hi) in claim order
+        nxt = 1 if kind else 0         # next sequence to be claimed
+        published = set(); prefix = 0  # contiguous published prefix (what the cursor should be)
+        cached = 0
+        ops = []
+        L = rng.randrange(3, 80 if run.thorough else 40)
+        for _ in range(L):
+            r = rng.random()
+            ming = min(gating) if gating else 0
+            if r < 0.45:
+                c = rng.choice([1, 1, 2, 3, 4, rng.randrange(1, size + 1)])
+                if kind == 0:
+                    ok = nxt + c - 1 <= ming + size
+                else:
+                    ok = max(0, (nxt - 1) - ming) + c < size
+                if ok:
+                    if kind == 0 and cached + size < nxt + c - 1:
+                        dist["seqapi_slow_path_claims"] += 1; cached = ming
+                    ops.append((1, c, 0)); out.append((nxt, nxt + c - 1)); nxt += c
+                    dist["seqapi_ops"]["next"] += 1
+                    dist["seqapi_max_outstanding"] = max(dist["seqapi_max_outstanding"], len(out))
+                    continue
+            if r < 0.8 and out:
+                i = 0 if (kind == 0 or rng.random() < 0.6) else rng.randrange(len(out))
+                if i: dist["seqapi_out_of_order_publishes"] += 1
+                lo, hi = out.pop(i)
+                ops.append((2, lo, hi)); dist["seqapi_ops"]["publish"] += 1
+                published.update(range(lo, hi + 1))
+                while (prefix + 1) in published or (kind == 0 and prefix == 0 and 0 in published and False): prefix += 1
+                continue
+            if ng:
+                i = rng.randrange(ng)
+                top = max(gating[i], (out[0][0] - 1) if out else (nxt - 1))
+                top = max(top, 0)
+                gating[i] = rng.randrange(gating[i], top + 1)
+                ops.append((3, i, gating[i])); dist["seqapi_ops"]["gate"] += 1
+        if not ops: continue
+        dist["seqapi_kinds"]["multi" if kind else "single"] += 1
+        cases.append(Case("seqapi", [kind, size, ng], ops, {"kind": "seqapi"}))
+    return cases, dist
+
+
+def seqapi_phase(run):
+    b, log = cargo_build("ds")
+    if not b:
+        fatal(run, "cargo build of harness/ds against /repo failed", log)
+    cases, dist = gen_seqapi(run)
+
+    def oracle(case, impl, spec):
+        # malformed histories (only the shrinker produces them: a publish of a range that is not outstanding, a claim that
+        # must block and is therefore not issued) are not judged
+        if spec == "checker:6" or impl.endswith("-777"):
+            return None
+        return None if spec == "checker:0" else f"the C14 property checker (SeqApi.check) rejected the observed history: verdict {spec} (1 claim not contiguous, 2 wrong length, 3 cursor decreased, 4 cursor past an unpublished sequence, 5 all published but cursor below the highest claim, 6/7 malformed)"
+
+    def known(case, impl, model, spec):
+        # D8: multi-producer, a range published before an earlier one is stranded -> cursor below the highest claim
+        if case.prefix[0] == 1 and spec == "checker:5":
+            return (KF_D8, KNOWN_TEXT[KF_D8])
+        return None
+    d = Differential(run, {"release": b}, lambda c: "seqapi_model_entry", None, oracle=oracle, known=known, isolated=False,
+                     check_entry=lambda c: "seqapi_check_entry", nontrivial=lambda c: sum(1 for o in c.ops if o[0] == 1) >= 2)
+    B = 400
+    for i in range(0, len(cases), B):
+        d.process(cases[i:i + B])
+    d.finish()
+    return dist
 
 
 def main():
-    run_ring_property("C14", PROPS, gen_multi, RULE)
+    run_ring_property("C14", PROPS, gen_multi, RULE, extra_phase=seqapi_phase,
+                      extra_trusted=["harness/ds family seqapi: Sequencer::next / publish / get_cursor and AtomicSequenceOrdered::set called directly, one thread, plain (unhooked) build"])
 
 
-replay = replay_ring("C14")
+_replay_ring = replay_ring("C14")
+
+
+def replay(path):
+    import json
+    d = json.load(open(path))
+    if "harness_line" in d and d["harness_line"].startswith("seqapi"):
+        run = Run("C14"); ensure_driver(); b, log = cargo_build("ds")
+        return generic_replay(Differential(run, {"release": b}, lambda c: "seqapi_model_entry", None, check_entry=lambda c: "seqapi_check_entry",
+                                           oracle=lambda case, impl, spec: None if spec in ("checker:0", "checker:6") or impl.endswith("-777") else spec), path)
+    return _replay_ring(path)
